@@ -219,6 +219,122 @@ def gen_routes_float(chk):
     return cases
 
 
+# ---------------------------------------------------------------------------------------
+# the literal family: integer literals by their source text (radix prefixes, separators, any width)
+# ---------------------------------------------------------------------------------------
+def T(text):
+    return [len(text)] + [ord(ch) for ch in text]
+
+
+def lit_text(c):
+    return "".join(chr(x) for x in c[6:6 + c[5]])
+
+
+def py_literal(text):
+    """the number an integer literal denotes, by the documented grammar (written independently of the model):
+    optional 0b/0o/0x prefix in either case, digits of that radix, `_` separators anywhere but at the end;
+    'err' = a syntax error (trailing `_`, no digit, a digit the radix does not have, 2^128 or more)"""
+    radix, body = 10, text
+    if len(text) >= 2 and text[0] == "0" and text[1] in "bBoOxX":
+        radix, body = {"b": 2, "o": 8, "x": 16}[text[1].lower()], text[2:]
+    if body.endswith("_"):
+        return "err"
+    digits = body.replace("_", "")
+    if not digits:
+        return "err"
+    alphabet = "0123456789abcdef"[:radix]
+    if any(ch.lower() not in alphabet for ch in digits):
+        return "err"
+    v = int(digits, radix)
+    return v if v < P128 else "err"
+
+
+def to_radix(v, radix, upper=False):
+    if v == 0: return "0"
+    ds = ""
+    while v:
+        ds = "0123456789abcdef"[v % radix] + ds
+        v //= radix
+    return ds.upper() if upper else ds
+
+
+def gen_literal_texts(chk):
+    rng = chk.rng
+    texts = []
+    values = [0, 1, 7, 10**16, 2 * 10**21, P63 - 1, P63, P63 + 1, P64 - 1, P64, P64 + 1, P127 - 1, P127, P127 + 1, P128 - 1, P128, P128 + 1, 2**130]
+    if chk.thorough:
+        values += [rng.next() | (rng.next() << 64) >> rng.below(70) for _ in range(60)]
+    for v in values:
+        for radix, pl in ((10, ""), (2, "0b"), (8, "0o"), (16, "0x")):
+            ds = to_radix(v, radix)
+            variants = [pl + ds, pl.upper() + ds, pl + "000" + ds]
+            if radix == 16:
+                variants += [pl + ds.upper(), pl.upper() + ds.upper()]
+            # separators: groups of four from the right, after the prefix, doubled, and one random place
+            grouped = "_".join(ds[max(0, i - 4):i] for i in range(len(ds), 0, -4))[::1]
+            grouped = "_".join(reversed([ds[max(0, i - 4):i] for i in range(len(ds), 0, -4)]))
+            variants += [pl + grouped, pl + ds + "_"]
+            if pl:
+                variants += [pl + "_" + ds]
+            if len(ds) > 2:
+                k = 1 + rng.below(len(ds) - 1)
+                variants += [pl + ds[:k] + "__" + ds[k:]]
+            texts += variants
+    # radix literals made of decimal digits only, around 64 and 128 bits (a decimal parser would accept them)
+    for pl, alphabet, lens in (("0x", "0123456789", (15, 16, 17, 18, 31, 32, 33)), ("0o", "01234567", (21, 22, 23, 42, 43, 44)),
+                               ("0X", "0123456789", (17, 32)), ("0O", "01234567", (22, 43))):
+        for n in lens:
+            texts.append(pl + "1" + "0" * (n - 1))
+            texts.append(pl + alphabet[-1] * n)
+            for _ in range(3 if chk.thorough else 1):
+                body = str(1 + rng.below(len(alphabet) - 1)) + "".join(rng.choice(alphabet) for _ in range(n - 1))
+                texts.append(pl + body)
+                texts.append(pl + body[:n // 2] + "_" + body[n // 2:])
+    # errors: digits the radix does not have, no digits at all, far too wide
+    texts += ["0b102", "0b2", "0o78", "0o8", "0b" + "1" * 64 + "2", "0o" + "7" * 22 + "8", "0x", "0b", "0o", "0X", "0x_", "0b_",
+              "0b" + "1" * 129, "0o" + "7" * 43, "0x" + "f" * 33, "9" * 39, "1_", "1__", "0_0"]
+    seen, out = set(), []
+    for t in texts:
+        if t not in seen:
+            seen.add(t); out.append(t)
+    return out
+
+
+def gen_literals(chk):
+    cases = []
+    for t in gen_literal_texts(chk):
+        tt = T(t)
+        cases.append([20, 8, 0, 0, 0] + tt)
+        cases.append([20, 6, 0, 0, 0] + tt)
+        for pos in (0, 1):
+            for o in (0, 1, 2, 3, 4, 7):
+                cases.append([20, o, pos, 1, 1] + tt)
+            cases.append([20, 3, pos, 0, 10] + tt)
+            cases.append([20, 7, pos, 0, 18446744073709551616] + tt)
+        cases.append([20, 5, 0, 1, 1] + tt)
+    return cases
+
+
+def literal_equivalent(c, v, value_form):
+    """the same case with the text literal replaced by its number: as a decimal literal (value_form False) or as a value"""
+    o, pos, fb, b = c[1], c[2], c[3], c[4]
+    f = (2 if v < P64 else 4) if value_form else 0
+    if o == 8: return None
+    if o == 6: return [6, f, v, 0, 0]
+    return [o, f, v, fb, b] if pos == 0 else [o, fb, b, f, v]
+
+
+def describe_literal(c):
+    o, t = c[1], lit_text(c)
+    other = "%d as %s" % (c[4], form_name(c[3]))
+    b = str(c[4]) if c[3] == 0 else "b"
+    if o == 8: e = t
+    elif o == 6: e = "-" + t
+    elif o == 7: e = ("%s < | == | > %s" % ((t, b) if c[2] == 0 else (b, t)))
+    else: e = "%s %s %s" % ((t, OPS[o], b) if c[2] == 0 else (b, OPS[o], t))
+    return {"literal": t, "denotes": py_literal(t), "expr": e, "other_operand": None if o in (6, 8) else other}
+
+
 def rand_float(rng, nice):
     if nice:   # small dyadic rationals: everything about them is exact in f64
         k = rng.below(2**rng.below(21) + 1); j = rng.below(11)
@@ -487,10 +603,15 @@ def main():
         if not cases:
             log("replay file names no input (a proof / correspondence finding): running the whole check instead")
             chk.replay = None
+    lcases = []
     if chk.replay:
+        lcases = [c for c in cases if c[0] == 20]
+        cases = [c for c in cases if c[0] != 20]
         icases = [c for c in cases if not (is_float_form(c[1]) or (c[0] != 6 and is_float_form(c[3])))]
         fcases = [c for c in cases if c not in icases]
+        route_cases = []
     else:
+        lcases = gen_literals(chk)
         icases, box_n = gen_int(chk)
         route_cases = gen_routes(chk)
         icases += route_cases
@@ -572,6 +693,42 @@ def main():
                 a, b = key[1], key[3]
                 if not (q * b + rr == a and 0 <= rr < abs(b)):
                     law_bad.append((rel, d[3][1], d[4][1], q, rr))
+
+    # ---------------- literal family ----------------
+    lbad = collections.OrderedDict()
+    lmism = []
+    lhist = collections.Counter()
+    if lcases:
+        rl = run_all(lcases)
+        eq_lit = [literal_equivalent(c, py_literal(lit_text(c)), False) if py_literal(lit_text(c)) != "err" else None for c in lcases]
+        eq_val = [literal_equivalent(c, py_literal(lit_text(c)), True) if py_literal(lit_text(c)) != "err" else None for c in lcases]
+        eq_idx = [i for i, e in enumerate(eq_val) if e is not None]
+        for rel in (False, True):
+            out_val = dict(zip(eq_idx, prun(lambda cs: run_impl("c08", cs, release=rel), [eq_val[i] for i in eq_idx])))
+            jl = dict(zip(eq_idx, prun(lambda cs: run_model("C08", "c08-judge", cs), [eq_lit[i] + rl["impl"][rel][i] for i in eq_idx])))
+            for i, c in enumerate(lcases):
+                out = rl["impl"][rel][i]
+                v = py_literal(lit_text(c))
+                prof = "release" if rel else "debug"
+                if rel is False:
+                    lhist["error literal" if v == "err" else "radix %d, %s" % (10 if not (len(lit_text(c)) > 1 and lit_text(c)[1] in "bBoOxX") else {"b": 2, "o": 8, "x": 16}[lit_text(c)[1].lower()],
+                                                                             "< 2^64" if v < P64 else "< 2^128")] += 1
+                if rl["model"][i] not in ([7], [9]) and rl["model"][i] != out:
+                    lmism.append((i, rel))
+                if out == [2] or (out and out[0] == "CRASH"):
+                    lbad.setdefault(i, (prof, out, "crash")); continue
+                if v == "err":
+                    exp = [5, 104, 104, 104] if c[1] == 7 else [1, 4]
+                    if out != exp:
+                        lbad.setdefault(i, (prof, out, "literal accepted although it is malformed or denotes 2^128 or more: expected a syntax error"))
+                elif c[1] == 8:
+                    if out != [0, v]:
+                        lbad.setdefault(i, (prof, out, "literal does not denote the number its digits spell in its radix: expected %d" % v))
+                else:
+                    if jl[i][:1] == [0]:
+                        lbad.setdefault(i, (prof, out, "literal operand: " + REASON.get(jl[i][1], str(jl[i])) + " (the literal denotes %d)" % v))
+                    elif jl[i][:1] not in ([3], [9]) and out != out_val[i]:
+                        lbad.setdefault(i, (prof, out, "literal form differs from variable form: the same number as a value gives %s" % out_val[i]))
 
     # ---------------- float leg ----------------
     rf = run_all(fcases, with_model=False)
@@ -662,11 +819,17 @@ def main():
             if c[0] == 7 or x < 0 or y < 0 or x != int(x) or y != int(y):
                 nontriv.add((c[0], repr(x), repr(y)))
     hist = {k: dict(sorted(v.items(), key=lambda kv: -kv[1])) for k, v in H.items()}
-    chk.cov["evaluations"] = 2 * (len(icases) + len(fcases))
+    chk.cov["literal_family_cases"] = len(lcases)
+    chk.cov["literal_family_texts"] = len(set(lit_text(c) for c in lcases))
+    H["literal family: literal"].update(lhist)
+    hist = {k: dict(sorted(v.items(), key=lambda kv: -kv[1])) for k, v in H.items()}
+    chk.cov["evaluations"] = 2 * (len(icases) + len(fcases) + len(lcases))
     chk.cov["distinct_nontrivial"] = len(nontriv)
     chk.cov["rule"] = ("integer leg: boundary pool (%d values: 0, +-1, +-2, 2^31+-1, 2^32+-1, 2^53+-1, +-2^63, +-(2^63+-1), 2^64+-1, +-2^127, +-(2^127+-1), 2^128-1, small exponents) squared x "
                        "{+,-,*,//,%%,**,cmp} + unary minus x every pair of operand forms able to hold the numbers (first %d cases, exhaustive), "
-                       "plus seeded random 128-bit pairs (all widths), plus the supply-route leg: every value of the route pool (type edges i8..u128, 2^128-2^63+-1, 2^128-1, ...) delivered through "
+                       "plus seeded random 128-bit pairs (all widths), plus the literal family (integer literals by their source text: every radix prefix in either case x values around 2^63, 2^64, 2^127, 2^128 x "
+                       "upper/lower digits, leading zeros, `_` separators, decimal-digit-only hex/octal strings around 64 and 128 bits, malformed and too-large literals; alone, negated and as either operand of every operator; "
+                       "must denote the number its digits spell, equal the variable form, or be a syntax error), plus the supply-route leg: every value of the route pool (type edges i8..u128, 2^128-2^63+-1, 2^128-1, ...) delivered through "
                        "Value::from / Serde / struct field / Vec element / map value / deserialize round trip / Serde(Some) at every Rust integer type able to hold it, x all operators, both operand positions; float leg: float pool^2, pool integers x floats in every integer form and both orders, "
                        "floats adjacent to the pool integers, seeded random floats (dyadic and raw bit patterns); every case runs in a debug and a release build. "
                        "non-trivial = distinct (operator, a, b) number triple (forms merged) that the oracle judged and accepted and where an operand is >= 2^31 in magnitude or the "
@@ -679,10 +842,11 @@ def main():
     chk.cov["float_cases_judged"] = fjudged
     pick = sorted(set(i for i in (0, len(icases) // 3, len(icases) // 2, len(icases) - 1) if 0 <= i < len(icases)))
     fpick = sorted(set(i for i in (len(fcases) // 4, len(fcases) - 1) if 0 <= i < len(fcases)))
-    chk.cov["samples"] = [dict(describe(icases[i]), answer=r["impl"][False][i]) for i in pick] + \
+    chk.cov["samples"] = [dict(describe_literal(lcases[i]), answer=rl["impl"][False][i]) for i in sorted(set((len(lcases) // 3, len(lcases) - 1))) if 0 <= i < len(lcases)] + \
+                         [dict(describe(icases[i]), answer=r["impl"][False][i]) for i in pick] + \
                          [dict(describe(fcases[i]), answer=rf["impl"][False][i]) for i in fpick]
     chk.cov["distribution"] = hist
-    chk.cov["impl_vs_model_disagreements"] = len(mism) + len(fmism)
+    chk.cov["impl_vs_model_disagreements"] = len(mism) + len(fmism) + len(lmism)
     chk.cov["int_float_comparisons_through_model"] = fmodelled
     chk.cov["float_floordiv_rem_through_model"] = feuclid_modelled
     chk.notes["float_ieee_mismatches_informational"] = ieee_mismatch
@@ -728,6 +892,10 @@ def main():
         chk.violation("(a // b) * b + a % b == a with 0 <= a % b < |b| fails on the implementation's answers",
                       {"cases": [icases[i3], icases[i4]], "describe": describe(icases[i3]), "quotient": q, "remainder": rr, "profile": "release" if rel else "debug",
                        "how": "./check C08 --replay <this file>"})
+    for i, prof, out, why in per_class(lbad, n=3):
+        c = lcases[i]
+        chk.violation("integer literal: " + why, {"case": c, "describe": describe_literal(c), "profile": prof, "implementation": out,
+                      "model": rl["model"][i], "how": "./check C08 --replay <this file>"})
     for i, prof, out, why in per_class(fbad):
         c = fcases[i]
         chk.violation("float leg: " + why, {"case": c, "describe": describe(c), "profile": prof, "implementation": out, "how": "./check C08 --replay <this file>"})
@@ -760,6 +928,10 @@ def main():
             else:
                 chk.violation("model and implementation disagree", {"theorem_or_correspondence": "correspondence C08.Runner.run vs harness c08",
                               "case": c, "describe": describe(c), "implementation": r["impl"][rel][i], "model": model[i], "disagreements": len(mism)}, True)
+        if lmism:
+            i, rel = lmism[0]
+            chk.violation("model and implementation disagree (literal family)", {"theorem_or_correspondence": "correspondence C08.Runner.run_literal (Model.lex_number_text) vs harness c08",
+                          "case": lcases[i], "describe": describe_literal(lcases[i]), "implementation": rl["impl"][rel][i], "model": rl["model"][i], "disagreements": len(lmism)}, True)
         if fmism and not mism:
             i, rel, mo = fmism[0]
             chk.violation("model and implementation disagree (float leg)", {"theorem_or_correspondence": "correspondence C08.Runner.run (model_compare_float / FloatModel.Brem_euclid, Bdiv_euclid) vs harness c08",
